@@ -17,6 +17,7 @@ def rule_gt_forward(repo):
         "crate::Gt::inverse": lambda rv: rv[0] == "call" and rv[1].name == "map" and strip(rv[2][0])[0] == "call" and strip(rv[2][0])[1].name == "inverse" and strip(strip(rv[2][0])[2][0]) == ("field", ("init", ("deref", 1)), 0),
         "crate::Gt::to_slice": lambda rv: rv[0] == "call" and rv[1].d == "crate::fields::fq12::Fq12::to_slice" and strip(rv[2][0]) == ("field", ("param", 1), 0),
     }
+    opof = {"<crate::Gt as core::ops::Mul>::mul": "mul", "crate::Gt::pow": "pow", "crate::Gt::inverse": "inverse", "crate::Gt::to_slice": None}
     for path, pred in specs.items():
         b = F.bodies.get(path)
         R.instance()
@@ -24,10 +25,7 @@ def rule_gt_forward(repo):
             R.fail_closed("C11:gt:%s" % path, "%s not found" % path)
             continue
         rv = repo.tb(b).return_value()
-        try:
-            ok = bool(pred(rv))
-        except (IndexError, TypeError, KeyError):
-            ok = False
+        ok, _ = shared.forwards(repo, b, pred, opof[path])
         R.check(ok, "C11:gt:%s" % path, "%s does not forward as specified: %s" % (path, show(rv, maxdepth=3)[:160]), b.file_line(), path, sample={"fn": path, "is": show(rv, maxdepth=2)[:100]})
     return R.finish()
 
